@@ -85,8 +85,9 @@ func (p *Parser) parseNext() error {
 
 	c := p.data[p.pos]
 
-	// Check for potential operator (starts with letter)
-	if isLetter(c) {
+	// Check for potential operator (starts with a letter; the text-showing operators ' and "
+	// consist of the quote character alone)
+	if isLetter(c) || c == '\'' || c == '"' {
 		return p.parseOperator()
 	}
 
